@@ -13,6 +13,7 @@ import (
 	"math/big"
 	"net/http"
 	"net/http/httptest"
+	"os"
 	"strings"
 	"sync"
 	"sync/atomic"
@@ -151,10 +152,10 @@ type permClaim struct {
 	grants bool // grants read on "b1"
 }
 
-func permClaims() []permClaim {
+func permClaims(thorough bool) []permClaim {
 	l := func(ps ...perm) any { return ps }
 	js := func(v any) string { b, _ := json.Marshal(v); return string(b) }
-	return []permClaim{
+	all := []permClaim{
 		{name: "absent", absent: true},
 		{name: "list-equal", value: l(perm{"read", "b1"}), grants: true},
 		{name: "string-holding-list", value: js(l(perm{"read", "b1"})), grants: true},
@@ -173,6 +174,18 @@ func permClaims() []permClaim {
 		{name: "invalid-action", value: l(perm{"bogus", ""})},
 		{name: "null", value: nil},
 	}
+	if thorough {
+		return all
+	}
+	var out []permClaim
+	for _, p := range all {
+		switch p.name {
+		case "list-nopathfield", "list-second-grants", "regex-other-path", "string-other-path", "number", "invalid-action":
+			continue // thorough only
+		}
+		out = append(out, p)
+	}
+	return out
 }
 
 type audClaim struct {
@@ -317,7 +330,7 @@ func runJWT(r *vcommon.Run) {
 	defer srv.Close()
 
 	sgs := signers(ks, r.Thorough())
-	pcs := permClaims()
+	pcs := permClaims(r.Thorough())
 
 	// ---------------- part A: token validity
 	var specs []tokSpec
@@ -325,6 +338,9 @@ func runJWT(r *vcommon.Run) {
 		for e := 0; e < 3; e++ {
 			for i := 0; i < 3; i++ {
 				for a := range auds {
+					if !r.Thorough() && auds[a].name == "string-y" {
+						continue
+					}
 					for p := range pcs {
 						for k := 0; k < 2; k++ {
 							specs = append(specs, tokSpec{s, e, i, a, p, k})
@@ -449,6 +465,17 @@ func runJWT(r *vcommon.Run) {
 					r.Violation("jwt-valid-rejected:"+sg.name+":"+pc.name+":exp="+expNames[ts.exp]+":iss="+issRel+":aud="+audRel+"/"+auds[ts.aud].name,
 						desc+": valid granting token rejected: "+aerr.Error(), replay)
 				}
+				switch want {
+				case yes:
+					count(fmt.Sprintf("jwtA/expected=admit/admitted=%v", admitted))
+				case dc:
+					count(fmt.Sprintf("jwtA/expected=dontcare/admitted=%v", admitted))
+				default:
+					count(fmt.Sprintf("jwtA/expected=reject/admitted=%v", admitted))
+					if len(reject) == 1 {
+						count("jwtA/single-reject-reason=" + reject[0])
+					}
+				}
 				r.Distinct(fmt.Sprintf("jwtA %s %s exp=%s iss=%s aud=%s/%s perm=%s reject=%s -> %v", sg.name, tamperNames[tk], expNames[ts.exp],
 					issRel, audRel, auds[ts.aud].name, pc.name, strings.Join(reject, "+"), admitted))
 				if want == yes && si%37 == 0 {
@@ -457,6 +484,7 @@ func runJWT(r *vcommon.Run) {
 			}
 		}
 	})
+	fmt.Fprintf(os.Stderr, "[c02] jwt part A %.1fs\n", time.Since(now).Seconds())
 	r.Set("jwt_tokens_minted", len(specs))
 	r.Set("jwt_partA_authentications", nA.Load())
 
@@ -477,10 +505,10 @@ func runJWT(r *vcommon.Run) {
 		return "G"
 	}
 	type qv struct {
-		name          string
-		query         string
-		qToken, qJWT  []string
-		unclear       bool
+		name         string
+		query        string
+		qToken, qJWT []string
+		unclear      bool
 	}
 	queries := []qv{
 		{name: "-"},
@@ -586,10 +614,23 @@ func runJWT(r *vcommon.Run) {
 			r.Violation("jwt-source-rejected:"+cls, desc+": rejected ("+aerr.Error()+"), but the precedence rule selects the valid token (or the request is excluded)", replay)
 		}
 		r.Distinct(fmt.Sprintf("jwtB %s excluded=%v -> %v", cls, excluded, admitted))
+		src := "none"
+		switch {
+		case excluded:
+			src = "excluded"
+		case c.token != "":
+			src = "tokenfield"
+		case c.pass != "":
+			src = "password"
+		case queryEligible(c.ap, allowed) != no && c.q.query != "":
+			src = "query"
+		}
+		count(fmt.Sprintf("jwtB/source=%s/canAdmit=%v,canReject=%v/admitted=%v", src, canAdmit, canReject, admitted))
 		if i%20011 == 0 {
 			r.Sample(replay)
 		}
 	})
+	fmt.Fprintf(os.Stderr, "[c02] jwt part A+B %.1fs\n", time.Since(now).Seconds())
 	r.Set("jwt_partB_cases", len(bcases))
 
 	// ---------------- part C: JWKS server failure modes and key rotation
@@ -612,8 +653,10 @@ func runJWT(r *vcommon.Run) {
 						nC++
 						excluded := refGrants(excl, act, "b1")
 						admitted := aerr == nil
-						// with these JWKS answers no token verifies against "the JWKS keys" (V is signed by k1, "otherkeys" publishes k2 as k1)
-						if admitted != excluded {
+						// with these JWKS answers no token verifies against "the JWKS keys", except that "otherkeys" publishes
+						// k2 under the kid k1: there W (signed with k2 as k1) is the valid token and V is not
+						want := excluded || (mode == "otherkeys" && tk.name == "W")
+						if admitted != want {
 							r.Violation(fmt.Sprintf("jwt-jwks-%s:admitted=%v", mode, admitted), fmt.Sprintf(
 								"JWKS server in mode %s, exclude=%v, %s with token %s: admitted=%v", mode, excl, act, tk.name, admitted),
 								map[string]any{"method": "jwt", "part": "C", "jwks": mode, "exclude": excl, "action": string(act), "token": tk.name})
